@@ -23,6 +23,11 @@ Family: the C02 shape family plus shapes built to hit index / row coincidences (
 same absolute row, advice #k <-> constant column #k row 0, advice #k <-> fixed #k same row, same column different
 rows, different columns same row, a cell copied onto itself, ties through constrain_instance / constrain_constant,
 near misses).
+Static lookup tables (members `st-*`, vf/symf.py STATIC_SHAPES): `fixed-columns` covers the TableColumn columns that
+`Layouter::assign_table` fills and pads through `fill_from_row` (keygen.rs Assembly vs dev/mod.rs), on every row: values
+on the usable rows, "vk 0 / checker Unassigned" on the blinding rows; `lookup-inputs` compares the vk's compiled lookup
+input (selectors -> fixed columns) with the declared input under the checker's selector bits. A differing table row
+replays on the real stack as a witness looking that row up (notes/symfield.md, section "Static lookup tables").
 A disagreement replays on the real stack: the copy entry whose tie the vk lost is violated by the witness (value
 off by one, everything else honest): MockProver rejects, the real verifier (Fq, KZG, Blake2b) accepts.
 """
@@ -78,6 +83,7 @@ def family():
     rnd = random.Random(1000 + core.seed())
     for i in range(2 if core.tier() == "quick" else 34):
         members[f"seeded{i}"] = symf.random_shape(rnd)
+    members.update(symf.static_members())     # static lookup tables (own seed stream; the members above are unchanged)
     return members
 
 
@@ -256,6 +262,100 @@ def fixed_pairs(d):
     return pairs
 
 
+def fixed_pairs_all(d):
+    """fixed_pairs plus, for the circuit's own fixed columns (table columns included), the state of the checker's cells:
+    on the usable rows the values are compared (an Unassigned cell counts as 0, which is how MockProver evaluates it); on
+    the rows beyond (blinding rows) the vk must hold 0 and the checker's cell must be Unassigned - nothing may be
+    assigned or padded there - and the two sides must agree on the number of usable rows."""
+    pairs = fixed_pairs(d)
+    st = d["mock"].get("fixed_state")
+    if st is None:
+        return pairs
+    u = d["mock"]["usable_rows"]
+    pairs.append((d["keygen"]["usable_rows"], u))
+    ncirc = len(d["mock"]["fixed"]) - len(d["mock"]["selectors"])
+    for col in st[:ncirc]:
+        for i, c in enumerate(col):
+            if i >= u:
+                pairs.append((0 if c == "U" else 1, 0))
+    return pairs
+
+
+def static_tables_of(d, side):
+    """per static lookup: the tuples of its table on the usable rows, read off the vk's vectors / the checker's cells"""
+    cols = d["keygen"]["fixed"] if side == "vk" else d["mock"]["fixed"]
+    u = d["mock"]["usable_rows"]
+    out = []
+    for lk in d.get("slookups", []):
+        out.append([tuple(int(cols[c][i], 16) if cols[c][i].startswith("0x") else -1 for c in lk["table_fixed_cols"]) for i in range(u)])
+    return out
+
+
+def check_lookup_inputs(run, name, member, d, bound):
+    """static lookups: the input expression the vk carries after keygen (selectors compiled to fixed columns), evaluated
+    on every usable row over the fixed vectors the vk commits to, equals the input as declared with the selector bit the
+    checker recorded (all advice cells symbolic)."""
+    ob = core.Ob(f"C02/S2/{name}/lookup-inputs", ENGINE,
+                 "static lookups: vk's compiled input expression over the vk's fixed vectors == declared input with the checker's selector bits, every usable row, advice symbolic",
+                 functions=FUNCS + ["proofs/src/plonk/circuit.rs::ConstraintSystem::lookup", "proofs/src/plonk/circuit.rs::replace_selectors_with_fixed"],
+                 bound=bound, key="vk-vs-checker:lookup-input")
+    run.add(ob)
+    dag = symf.Dag(d["arena"])
+    ring, memo = symf.Ring(), {}
+    pairs, bad = [], []
+    for lk in d["slookups"]:
+        for row, (ir, sr) in enumerate(zip(lk["impl"], lk["spec"])):
+            for j, (a, b) in enumerate(zip(ir, sr)):
+                A, B = dag.normal(ring, a, memo), dag.normal(ring, b, memo)
+                for mono in set(A) | set(B):
+                    pairs.append((A.get(mono, 0), B.get(mono, 0)))
+                if A != B:
+                    bad.append((lk["lookup_index"], row, j, ring.show(A), ring.show(B)))
+    # translator validation: normal form vs direct evaluation of the DAG at a pseudo-random point
+    names = [n[1] for n in dag.nodes if n[0] == "v"]
+    rnd = random.Random(11 + core.seed())
+    env = {nm: rnd.randrange(1, P) for nm in names}
+    ev = {}
+    for lk in d["slookups"]:
+        for ir in lk["impl"][:4]:
+            for a in ir:
+                if ring.evaluate(dag.normal(ring, a, memo), {ring.vars[nm]: env[nm] for nm in names if nm in ring.vars}) != dag.evaluate(a, env, ev):
+                    ob.set(INCONCLUSIVE, "translator validation failed: normal form and DAG disagree at a sample point")
+                    return
+    r = solvers.solve(symf.residual_smt(pairs), timeout=60)
+    twp = list(pairs)
+    twp[0] = (twp[0][0], (twp[0][1] + 1) % P)
+    tw = solvers.solve(symf.residual_smt(twp), timeout=60)
+    ob.queries += 2
+    ob.vacuity = tw.status == "sat"
+    if r.status == "unsat" and not bad and ob.vacuity:
+        ob.set(HOLDS, f"{len(d['slookups'])} static lookups x {d['mock']['usable_rows']} usable rows, {len(pairs)} monomials; selector indices "
+               f"{[lk['sel_index'] for lk in d['slookups']]}", solver=r.solver, solver_s=r.time_s)
+    elif r.status == "sat" or bad:
+        payload = {"kind": "lookup-inputs", "member": member}
+        L, row, j, a, b = bad[0]
+        detail = f"lookup {L} row {row} input {j}: vk has {a[:120]} ; declared {b[:120]} ({len(bad)} cells differ)"
+        ob.set(VIOLATION if replay(payload) else INCONCLUSIVE, detail, solver=r.solver, solver_s=r.time_s, replay=_wr(run, ob, payload))
+    else:
+        ob.set(INCONCLUSIVE, f"solver {r.status}, twin {tw.status}")
+
+
+def harness_sanity(member, d):
+    """replay-harness validation (concrete, not evidence): on the real stack the honest witness is accepted by MockProver
+    and by the real verifier, and a witness looking a non-member tuple up (the zero tuple when the table does not contain
+    it) is rejected by both. Returns a list of problems."""
+    probs = []
+    mo, ro, txt = symf.static_real(member)
+    if not (mo and ro):
+        probs.append(f"honest witness: {txt}")
+    for li, lk in enumerate(d["slookups"]):
+        tup = symf.static_cheat_tuple(lk["table_rows"])
+        mo, ro, txt = symf.static_real(member, li, tup)
+        if mo or ro:
+            probs.append(f"lookup {li} tuple {tup}: {txt}")
+    return probs
+
+
 def check_member(run, name, m):
     bound = f"shape {name}: {json.dumps(m['shape'])[:260]}; k in {{4,5}}"
     ob_p = core.Ob(f"C02/S2/{name}/perm-partition", ENGINE, "vk sigma and MockProver permutation: same columns, bijection, same cycle partition",
@@ -304,21 +404,46 @@ def check_member(run, name, m):
     else:
         ob_p.set(INCONCLUSIVE, f"solver {sts}, twin {tw.status if tw else 'none'}")
     # ---- fixed columns
-    pairs = fixed_pairs(d)
+    pairs = fixed_pairs_all(d)
     r = solvers.solve(symf.residual_smt(pairs), timeout=60)
     twp = list(pairs)
     twp[-1] = (twp[-1][0], (twp[-1][1] + 1) % P)
     tw2 = solvers.solve(symf.residual_smt(twp), timeout=60)
     ob_f.queries += 2
     ob_f.vacuity = tw2.status == "sat"
+    static = bool(m["shape"].get("slookups"))
     if r.status == "unsat" and ob_f.vacuity:
-        ob_f.set(HOLDS, f"{len(d['keygen']['fixed'])} columns x {d['n']} rows", solver=r.solver, solver_s=r.time_s)
+        detail = f"{len(d['keygen']['fixed'])} columns x {d['n']} rows"
+        sane = []
+        if static:
+            detail += (f" ({sum(len(lk['table_fixed_cols']) for lk in d['slookups'])} table columns of static lookups; values on the "
+                       f"{d['mock']['usable_rows']} usable rows, vk 0 / checker Unassigned on the others)")
+            sane = harness_sanity(member, d)
+            STATIC_SANITY.append((name, sane))
+        if sane:
+            ob_f.set(INCONCLUSIVE, "columns agree but the real-stack replay harness does not behave as declared: " + "; ".join(sane)[:400])
+        else:
+            ob_f.set(HOLDS, detail, solver=r.solver, solver_s=r.time_s)
     elif r.status == "sat":
         payload = {"kind": "fixed", "member": member}
-        ob_f.set(VIOLATION if replay(payload) else INCONCLUSIVE, "a fixed / selector column of the vk differs from the checker's table",
-                 replay=_wr(run, ob_f, payload))
+        detail = "a fixed / selector column of the vk differs from the checker's table"
+        if static:
+            tv, tc = static_tables_of(d, "vk"), static_tables_of(d, "checker")
+            for li, (a, b) in enumerate(zip(tv, tc)):
+                if set(a) != set(b):
+                    ob_f.key = "vk-vs-checker:lookup-table-rows"
+                    detail += (f"; static lookup {li}: rows only in the vk's table {sorted(set(a) - set(b))[:3]}, only in the checker's "
+                               f"{sorted(set(b) - set(a))[:3]}")
+            bad = [(c, i) for c, (kc, mc) in enumerate(zip(d["keygen"]["fixed"], d["mock"]["fixed"])) for i, (x, y) in enumerate(zip(kc, mc)) if x != y]
+            detail += f"; differing cells (column,row): {bad[:6]}"
+        ob_f.set(VIOLATION if replay(payload) else INCONCLUSIVE, detail, replay=_wr(run, ob_f, payload))
     else:
         ob_f.set(INCONCLUSIVE, f"solver {r.status}")
+    if static:
+        check_lookup_inputs(run, name, member, d, bound)
+
+
+STATIC_SANITY = []
 
 
 def check(run):
@@ -343,17 +468,59 @@ def check(run):
                 ob = core.Ob(f"C02/S2/{n}/engine", ENGINE, "engine S infrastructure")
                 run.add(ob)
                 ob.set(INCONCLUSIVE, f"crashed: {e!r}")
+    nst = len([n for n in members if n.startswith("st-")])
+    if nst:
+        run.bounds.append(f"C02/S2 static tables: {nst} shapes (1-2 table columns; {{1,2,3}}, {{(1,5),(2,6)}}, zero-containing controls, length 1, "
+                          "usable rows - 1, two tables assigned in reverse order, seeded); input an advice cell or a linear expression, "
+                          "with / without a complex selector; k = 4")
+        run.translator_validation.append(
+            "S2/C02 static tables: replay harness (`sx real`) validated on every static shape whose columns agree: honest witness accepted "
+            "by MockProver and the real verifier, a witness looking a non-member tuple (the zero tuple unless the table contains it) up "
+            f"rejected by both: {sum(1 for _, p in STATIC_SANITY if not p)}/{len(STATIC_SANITY)} shapes as declared")
+        run.outside += ["C02/S2 static tables: V1 floor planner's assign_table (near-duplicate of single_pass's), tables assigned with "
+                        "non-constant values, tables whose zero tuple is not the first row (the padded COLUMN then differs from the "
+                        "checker's under a padding slip while the row SET does not), keygen_pk's own fixed columns (same Assembly)"]
 
 
 def replay(payload):
-    if payload.get("engine_part") not in (None, "S2") or payload.get("kind") not in ("perm", "fixed"):
+    if payload.get("engine_part") not in (None, "S2") or payload.get("kind") not in ("perm", "fixed", "lookup-inputs"):
         return None
     symf.build()
     m = payload["member"]
+    if payload["kind"] == "lookup-inputs":
+        # re-run; the two terms of a differing cell are evaluated at a pseudo-random point (concrete disagreement on the
+        # real keygen's output); the real stack's verdicts on the honest witness are printed for information
+        d = symf.sx("keygen", shape=m["shape"], k=m["k"], lens=m["lens"] or [0])
+        dag = symf.Dag(d["arena"])
+        names = [n[1] for n in dag.nodes if n[0] == "v"]
+        rnd = random.Random(5)
+        env = {nm: rnd.randrange(1, P) for nm in names}
+        ev, n_bad = {}, 0
+        for lk in d["slookups"]:
+            for row, (ir, sr) in enumerate(zip(lk["impl"], lk["spec"])):
+                for j, (a, b) in enumerate(zip(ir, sr)):
+                    va, vb = dag.evaluate(a, env, ev), dag.evaluate(b, env, ev)
+                    if va != vb:
+                        if not n_bad:
+                            print(f"lookup {lk['lookup_index']} row {row} input {j}: vk's compiled input = {hex(va)[:18]}.. declared input = {hex(vb)[:18]}.. at a random point")
+                        n_bad += 1
+        print(f"{n_bad} (lookup,row,input) cells differ; real stack, honest witness: {symf.static_real(m)[2]}")
+        return 1 if n_bad else 0
     if payload["kind"] == "fixed":
         d = symf.sx("keygen", shape=m["shape"], k=m["k"], lens=m["lens"] or [0])
-        bad = [(a, b) for a, b in fixed_pairs(d) if a != b]
+        bad = [(a, b) for a, b in fixed_pairs_all(d) if a != b]
         print(f"{len(bad)} fixed/selector cells differ between vk and checker")
+        if bad and d.get("slookups"):
+            # a row in exactly one of the two tables: looked up on the real stack (Fq, KZG, Blake2b, MockProver)
+            r = symf.static_tuple_replay(m, static_tables_of(d, "vk"), static_tables_of(d, "checker"), "the checker")
+            if r is not None:
+                print("reproduced: MockProver and the real verifier disagree on that witness" if r else
+                      "the verdicts agree on every tuple tried")
+                return r
+        if not bad and d.get("slookups"):
+            for li, lk in enumerate(d["slookups"]):
+                tup = symf.static_cheat_tuple(lk["table_rows"])
+                print(f"columns agree on this tree; witness looking {tuple(tup)} up in static lookup {li}: {symf.static_real(m, li, tup)[2]}")
         return 1 if bad else 0
     d = symf.sx("keygen", shape=m["shape"], k=m["k"], lens=m["lens"] or [0])
     an = analyse(d, m["shape"])
